@@ -12,8 +12,8 @@ import (
 )
 
 func init() {
-	register("C09", "Linking: (R1) the set of AST fields the walker writes is exactly the 'requires validation' set (13 links + Used); every unconditional link of a node is stored on every path before that node's observers run; (R2) every conditional link (value links, the type in scope of an inline fragment) is control-dependent only on the resolvability tests it needs (frozen guard table: nil tests of the looked-up definition, kind tests, CurrentOperation) — an extra guard can only drop links of valid documents; (R3) provenance — each stored link is the lookup the property names (field definition on the parent type by the field's own name, directive definition by name, fragment by name, list child from Elem, object child from the field found under the child's name, argument from the argument definition found under the argument's name); (R4) CurrentOperation is set before, and cleared after, every walk inside walkOperation; (R5) every child of every node is walked before the node's observers run (shared with C08.R3). (R3 also) the argument definition handed to walkArgument is found under the argument own name on the list of the field or directive walked. (R6) the links are written by the walker only. (R7) outside the loader no type is looked up under a fixed name.", runC09)
-	register("C08", "Validation coverage (weak, structural): (R1) the rules registered by init functions are exactly the specification's rules the library implements plus KnownRootType and MaxIntrospectionDepth, and every exported Rule is registered or a WithoutSuggestions twin; (R2) every schema attribute the specification's validation rules depend on is read by code reachable from the default rules and the walker; (R3) every event list is dispatched, for every node kind, on every path, and every child-bearing field of every executable node is walked (directives with the location constant of their node) before the node's observers run; (R4) type compatibility (Type.IsCompatible) compares like with like and reads NonNull of both sides at every level; the pair cache of the field-merge algorithm answers 'already compared' for a non-exclusive query only from a non-exclusive entry; (R5) a visited set that keeps its entries (a memo) cuts a traversal only when every used scalar parameter that changes while the set is in use is part of its key. (R3 also) the fragment visited set is renewed per operation. (R6) the links and expected types the rules read have the provenance and guards the specification names (C09.R2/R3). (R7) outside the loader no type is looked up under a fixed name; (R8) the null-for-non-null test of ValuesOfCorrectType cannot be bypassed.", runC08)
+	register("C09", "Linking: (R1) the set of AST fields the walker writes is exactly the 'requires validation' set (13 links + Used); every unconditional link of a node is stored on every path before that node's observers run; (R2) every conditional link (value links, the type in scope of an inline fragment) is control-dependent only on the resolvability tests it needs (frozen guard table: nil tests of the looked-up definition, kind tests, CurrentOperation) — an extra guard can only drop links of valid documents; (R3) provenance — each stored link is the lookup the property names (field definition on the parent type by the field's own name, directive definition by name, fragment by name, list child from Elem, object child from the field found under the child's name, argument from the argument definition found under the argument's name); (R4) CurrentOperation is set before, and cleared after, every walk inside walkOperation; (R5) every child of every node is walked before the node's observers run (shared with C08.R3). (R3 also) the argument definition handed to walkArgument is found under the argument own name on the list of the field or directive walked. (R6) the links are written by the walker only. (R7) outside the loader no type is looked up under a fixed name. (R8) the registries the link lookups read only grow.", runC09)
+	register("C08", "Validation coverage (weak, structural): (R1) the rules registered by init functions are exactly the specification's rules the library implements plus KnownRootType and MaxIntrospectionDepth, and every exported Rule is registered or a WithoutSuggestions twin; (R2) every schema attribute the specification's validation rules depend on is read by code reachable from the default rules and the walker; (R3) every event list is dispatched, for every node kind, on every path, and every child-bearing field of every executable node is walked (directives with the location constant of their node) before the node's observers run; (R4) type compatibility (Type.IsCompatible) compares like with like and reads NonNull of both sides at every level; the pair cache of the field-merge algorithm answers 'already compared' for a non-exclusive query only from a non-exclusive entry; (R5) a visited set that keeps its entries (a memo) cuts a traversal only when every used scalar parameter that changes while the set is in use is part of its key. (R3 also) the fragment visited set is renewed per operation. (R6) the links and expected types the rules read have the provenance and guards the specification names (C09.R2/R3). (R7) outside the loader no type is looked up under a fixed name; (R8) the null-for-non-null test of ValuesOfCorrectType cannot be bypassed. (R4 also) a flag that relaxes the nullability comparison is not inherited by the element types.", runC08)
 }
 
 // ---------------------------------------------------------------------------
